@@ -186,6 +186,76 @@ def candidates(scn):
                 pass
 
 
+def _class_specs(node, path=()):
+    """(path, spec) of every dict that looks like a class spec (has "name" and "invs"/"members"/"methods")."""
+    if isinstance(node, dict):
+        if "name" in node and any(k in node for k in ("invs", "members", "methods")) and not (path and path[-1] == "world"):
+            yield path, node
+        for k, v in node.items():
+            if isinstance(v, (dict, list)) and k != "world":
+                for x in _class_specs(v, path + (k,)):
+                    yield x
+    elif isinstance(node, list):
+        for i, v in enumerate(node):
+            for x in _class_specs(v, path + (i,)):
+                yield x
+
+
+def _drop_flag(node, sid):
+    if isinstance(node, dict):
+        for key in ("flags", "mutates"):
+            d = node.get(key)
+            if isinstance(d, dict) and sid in d:
+                del d[sid]
+        for v in node.values():
+            _drop_flag(v, sid)
+    elif isinstance(node, list):
+        for v in node:
+            _drop_flag(v, sid)
+
+
+def class_candidates(scn):
+    """Smaller variants obtained by simplifying class specs that live outside scn["world"] (C03 classes, history steps)."""
+    for p, cs in list(_class_specs(scn)):
+        for key in ("members", "methods"):
+            lst = cs.get(key) or []
+            for i in range(len(lst) - 1, -1, -1):
+                c = copy.deepcopy(scn)
+                del _get(c, p)[key][i]
+                yield c
+            for i, ms in enumerate(lst):
+                for role in ("pre", "post", "snaps"):
+                    sub = ms.get(role) or []
+                    for j in range(len(sub) - 1, -1, -1):
+                        c = copy.deepcopy(scn)
+                        del _get(c, p)[key][i][role][j]
+                        yield c
+        invs = cs.get("invs") or []
+        for i in range(len(invs) - 1, -1, -1):
+            c = copy.deepcopy(scn)
+            del _get(c, p)["invs"][i]
+            name = cs["name"]
+            _drop_flag(c, "%s/inv%d" % (name, i))
+            for j in range(i + 1, len(invs)):
+                _rename_flags(c, "%s/inv%d" % (name, j), "%s/inv%d" % (name, j - 1))
+            yield c
+        if cs.get("init") is not None and cs.get("base"):
+            c = copy.deepcopy(scn)
+            _get(c, p)["init"] = None
+            yield c
+        for fld in ("init_sets_attr", "bases2"):
+            if cs.get(fld):
+                c = copy.deepcopy(scn)
+                _get(c, p).pop(fld)
+                yield c
+    cl = scn.get("classes")
+    if isinstance(cl, list):
+        for i in range(len(cl) - 1, -1, -1):
+            c = copy.deepcopy(scn)
+            del c["classes"][i]
+            yield c
+
+
 def _rename_flags(node, old, new):
     if isinstance(node, dict):
         for key in ("flags", "mutates"):
@@ -199,6 +269,13 @@ def _rename_flags(node, old, new):
             _rename_flags(v, old, new)
 
 
+def _all_candidates(scn):
+    for c in candidates(scn):
+        yield c
+    for c in class_candidates(scn):
+        yield c
+
+
 def shrink(scn, same_class, budget=400):
     """Greedy fixpoint. ``same_class(candidate)`` -> bool executes the candidate."""
     cur = scn
@@ -206,7 +283,7 @@ def shrink(scn, same_class, budget=400):
     improved = True
     while improved and used < budget:
         improved = False
-        for cand in candidates(cur):
+        for cand in _all_candidates(cur):
             if used >= budget:
                 break
             used += 1
